@@ -17,10 +17,15 @@ CHECKS = {
              "(assigned_vars, liveness fix-points, exposed_uses) and the converter's scope/If-output/Loop-state selection and refusal rules, and defines "
              "what the emitted graph computes; TLC checks Faithful (refused or equal to Python wherever Python is defined) on every program up to the "
              "bound and on simulated deeper derivations. Every derived program is rendered to source, decorated with the real script(), run eagerly, as "
-             "to_model_proto() on ORT and as a model calling to_function_proto(), and compared with TLC's Python values.",
+             "to_model_proto() on ORT and as a model calling to_function_proto(), and compared with TLC's Python values. Direction B: traces recorded by "
+             "env-guarded hooks in converter.py (the repository's own programs and converter tests, the derived programs, 16 hand-written programs "
+             "outside the grammar) are validated by TLC against Converter.tla, an operational model of the scope stack / unique-name generator / "
+             "bindings in which analysis.py is transcribed on abstract statement trees, so the If outputs and Loop state of ARBITRARY programs are "
+             "computed by the specification and every construct's five sequences are checked position-wise.",
         note="values are INT64 scalars on 6 inputs; expression menu is fixed (incl. sub-function call and attribute parameter); ORT executes If/Loop as ONNX "
              "specifies; quick replays a stratified seeded sample, thorough all programs of the larger bound",
-        technique="TLA+ model of converter liveness/scoping vs Python semantics, TLC exhaustive + simulation, derived programs replayed into script()/eager/ORT",
+        technique="TLA+ model of converter liveness/scoping vs Python semantics, TLC exhaustive + simulation, derived programs replayed into script()/eager/ORT; "
+                  "TLC trace validation of recorded converter executions against an operational TLA+ model (Converter.tla)",
         design_ref="DESIGN.md section 4 C01",
     ),
     "C02": dict(
@@ -30,9 +35,12 @@ CHECKS = {
              "FunctionProto the real converter emits (GraphCheck.tla) for the programs derived by Script.tla (rendered under three variable naming schemes, "
              "incl. user names that look like generated ones), next to onnx.checker (strict, full_check / check_function). Near-miss source mutations "
              "(return in a block, augmented assignment, del, try, undefined name, break not last, range with two arguments, while on an expression) must "
-             "raise at decoration.",
-        note="programs are those of C01's grammar; functions with attribute parameters are not exported as models (documented)",
-        technique="TLA+ well-formedness predicate evaluated by TLC on real protos of TLC-derived programs + ONNX checker + near-miss refusal",
+             "raise at decoration. Direction B: the structural clauses of Converter.tla (names generated exactly as the algorithm says and defined once, "
+             "inputs visible, subgraph outputs produced inside and distinct) are evaluated by TLC at every step of recorded traces of the real "
+             "converter (repository programs and tests, derived programs).",
+        note="programs are those of C01's grammar (the trace validation also covers the repository's own programs); functions with attribute parameters are not exported as models (documented)",
+        technique="TLA+ well-formedness predicate evaluated by TLC on real protos of TLC-derived programs + ONNX checker + near-miss refusal; TLC trace "
+                  "validation of recorded converter executions (structural clauses of Converter.tla)",
         design_ref="DESIGN.md section 4 C02",
     ),
     "C06": dict(
@@ -112,10 +120,15 @@ CHECKS = {
              "model-local functions, overlapping instances, a val_0-named outer value, a clashing initializer, an extra graph output. Invariants: Graph!WF "
              "and exact Eval after every Splice; signature, frame, progress, termination, name-level WF at the end. Every TLC case is rebuilt as a real "
              "ModelProto + real RewriteRule objects and run through apply_to_model and rewrite(): no exception, checker, scope SSA, Graph!WF via TLC, ORT "
-             "before/after, signature, frame, progress; the final model must be isomorphic to the spec's.",
+             "before/after, signature, frame, progress; the final model must be isomorphic to the spec's. Direction B: RewriteApply.tla is a rule-agnostic "
+             "operational model of ONE rule application on the whole model in token form; the traces recorded by env-guarded hooks in _rewrite_rule.py "
+             "(every generated case and the repository's own rewriter/optimizer tests with their real rule sets) are executed by TLC and every recorded "
+             "snapshot must equal the state the specification computed (exactly the matched nodes removed, every use redirected, nothing else touched, "
+             "clean-up removes only dead nodes, count = number of applications, result topologically ordered).",
         note="values are FLOAT scalars; generated rules are Neg(Neg), keep-nodes, Relu(Relu), Mul by 1, Sub->Add/Neg, Add->Sum, new-initializer, "
              "as_function, a two-output-node pair, and ordered lists of these; quick uses nesting depth 1",
-        technique="TLA+ model of the rewrite engine (cursor, splice, post passes) with exact Eval, TLC exhaustive over derived hosts, each case replayed into rewrite()/apply_to_model + GraphCheck + ORT",
+        technique="TLA+ model of the rewrite engine (cursor, splice, post passes) with exact Eval, TLC exhaustive over derived hosts, each case replayed into rewrite()/apply_to_model + GraphCheck + ORT; "
+                  "TLC trace validation of recorded rule applications against RewriteApply.tla (snapshots = computed state)",
         design_ref="DESIGN.md section 4 C07",
     ),
     "C08": dict(
@@ -280,7 +293,8 @@ m = {
     "hooks": {
         "guard": "ONNXSCRIPT_VERIF",
         "enable": "checks run /repo's working tree through /venv (editable install); harness-side recorders wrap methods at run time; "
-                  "source hooks (if any) are active only when ONNXSCRIPT_VERIF=1",
+                  "source hooks (onnxscript/_internal/_verif.py; call sites in converter.py and rewriter/_rewrite_rule.py) are active only when "
+                  "ONNXSCRIPT_VERIF=1 is set before onnxscript is imported; ./check sets it for C01, C02, C04 and C07",
         "baseline_off_cmd": BASE,
         "source_commits": hooks_commits,
         "add_only": True,
